@@ -394,8 +394,8 @@ func runC02(w *mon.W) {
 	parts = append(parts, fmt.Sprintf("every operator shape with <= 3 operators and join arity 2..%d (%d shapes); every assignment of the 27 leaves over a 6-base parent for shapes with <= %d leaves; larger shapes: %d PRNG leaf assignments each", maxArity, nshape, fullLeafLimit, sampleN))
 	w.Extra("exhaustive_parts", parts)
 
-	nRand := w.Pick(20000, 2000000)
-	nParse := w.Pick(600, 20000)
+	nRand := w.Pick(200000, 4000000)
+	nParse := w.Pick(4000, 40000)
 	if !HookAvailable {
 		nRand = w.Pick(4000, 60000)
 	}
